@@ -2,10 +2,13 @@
   C17 — helper lemmas: `fullSource` (the mirror of `(*Plugin).FullSource`) expands the documented
   short forms, leaves the other documented forms as written, and is idempotent on its domain.
 
-  Architecture: `splitOn`/`joinWith`/`cutHash` get shape lemmas over separator-free prefixes;
-  `cleanRel` is the identity on component lists without ``, `.`, `..` (`GoodComps`); the branch
-  structure of `fullSource` is captured once forwards (`fullSource_unchanged`, `fullSource_expand`)
-  and once backwards (`fullSource_cases`), and every property is read off from those.
+  Architecture: `splitOn`/`joinWith`/`cutHash` get shape lemmas over separator-free prefixes; the
+  branch structure of `fullSource` is captured once forwards (`fullSource_unchanged`,
+  `fullSource_expand`) and once backwards (`fullSource_cases`), and every property is read off from
+  those. (Since fix 3ced888 the expansions are plain concatenations: the lemmas about
+  `cleanRel`/`pathJoin` that used to live here are gone, and the side condition on ref components in
+  `idempotent`/`result_in_dom`/`total_on_dom` is kept for the statements in `Props/C17.lean` only; it is
+  not used. The unconditional idempotence is in `Lemmas/PluginSourceIdem.lean`.)
 -/
 import GoPipeline.Model.PluginSource
 namespace GoPipeline.PluginSrc
@@ -243,43 +246,9 @@ theorem hash_not_mem_cutHash_fst (s : Str) : '#' ∉ (cutHash s).1 := by
       simp only [List.mem_cons, not_or]
       exact ⟨Ne.symm hc, ih⟩
 
-/-! ## `cleanRel` / `pathJoin` -/
-
-/-- Components `path.Clean` keeps: non-empty, not `.`, not `..`. -/
-def GoodComps (l : List Str) : Prop := ∀ comp ∈ l, comp ≠ [] ∧ comp ≠ ['.'] ∧ comp ≠ ['.', '.']
-
-theorem cleanRel_good (stack comps : List Str) (h : GoodComps comps) :
-    cleanRel stack comps = stack.reverse ++ comps := by
-  induction comps generalizing stack with
-  | nil => simp [cleanRel]
-  | cons c r ih =>
-    have hc := h c List.mem_cons_self
-    have hr : GoodComps r := fun x hx => h x (List.mem_cons_of_mem _ hx)
-    have h1 : (c == []) = false := by simpa using hc.1
-    have h2 : (c == ['.']) = false := by simpa using hc.2.1
-    have h3 : (c == ['.', '.']) = false := by simpa using hc.2.2
-    rw [cleanRel.eq_def]
-    simp only [h1, h2, h3, Bool.or_self, Bool.false_eq_true, ↓reduceIte]
-    rw [ih _ hr]; simp
-
-theorem pathJoin_of_good (ne : List Str) (h0 : ne ≠ []) (hne : ∀ e ∈ ne, e ≠ [])
-    (hg : GoodComps (splitOn '/' (joinWith '/' ne))) : pathJoin ne = joinWith '/' ne := by
-  have hf : ne.filter (· != []) = ne := by
-    rw [List.filter_eq_self]; intro e he; simpa using hne e he
-  unfold pathJoin
-  simp only [hf]
-  have : (ne == []) = false := by cases ne <;> simp at h0 ⊢
-  simp only [this, Bool.false_eq_true, ↓reduceIte]
-  rw [cleanRel_good _ _ hg]
-  simp only [List.reverse_nil, List.nil_append]
-  cases hs : splitOn '/' (joinWith '/' ne) with
-  | nil => exact absurd hs (splitOn_ne_nil _ _)
-  | cons x t => simp only; rw [← hs, joinWith_splitOn]
+/-! ## Constants, `lastSegment` -/
 
 theorem suffix_length : suffix.length = 17 := by decide
-
-theorem good_of_length {x : Str} (h : 3 ≤ x.length) : x ≠ [] ∧ x ≠ ['.'] ∧ x ≠ ['.', '.'] := by
-  refine ⟨?_, ?_, ?_⟩ <;> (rintro rfl; simp at h)
 
 theorem slash_not_mem_suffix : '/' ∉ suffix := by decide
 theorem hash_not_mem_suffix : '#' ∉ suffix := by decide
@@ -305,60 +274,6 @@ theorem lastSegment_ne_nil (y frag : Str) : lastSegment y frag ≠ [] := by
   have := congrArg List.length h
   rw [lastSegment_eq] at this
   simp [suffix_length] at this
-
-theorem goodComps_lastSegment {y frag : Str} (hy : '/' ∉ y)
-    (hf : frag = [] ∨ GoodComps (splitOn '/' frag)) : GoodComps (splitOn '/' (lastSegment y frag)) := by
-  rw [lastSegment_eq]
-  unfold hashTail
-  by_cases h : frag = []
-  · have hn : '/' ∉ y ++ suffix := by
-      simp only [List.mem_append, not_or]; exact ⟨hy, slash_not_mem_suffix⟩
-    simp only [h, ↓reduceIte, List.append_nil]
-    rw [splitOn_of_not_mem hn]
-    intro comp hc
-    simp only [List.mem_singleton] at hc
-    subst hc
-    exact good_of_length (by simp [suffix_length] <;> omega)
-  · have hg : GoodComps (splitOn '/' frag) := hf.resolve_left h
-    simp only [h, ↓reduceIte]
-    cases hs : splitOn '/' frag with
-    | nil => exact absurd hs (splitOn_ne_nil _ _)
-    | cons x t =>
-      have hn : '/' ∉ y ++ suffix ++ ['#'] := by
-        simp only [List.mem_append, not_or]
-        exact ⟨⟨hy, slash_not_mem_suffix⟩, by decide⟩
-      have e : y ++ suffix ++ '#' :: frag = (y ++ suffix ++ ['#']) ++ frag := by simp
-      rw [e, splitOn_append hn hs]
-      intro comp hc
-      rcases List.mem_cons.1 hc with hc | hc
-      · subst hc
-        exact good_of_length (by simp [suffix_length] <;> omega)
-      · exact hg comp (by rw [hs]; exact List.mem_cons_of_mem _ hc)
-
-/-- The expanding branches: `path.Join` is plain concatenation. -/
-theorem pathJoin_expand {x y frag : Str} (hxs : '/' ∉ x)
-    (hx : x ≠ [] ∧ x ≠ ['.'] ∧ x ≠ ['.', '.']) (hy : '/' ∉ y)
-    (hf : frag = [] ∨ GoodComps (splitOn '/' frag)) :
-    pathJoin [githubCom, x, lastSegment y frag] =
-      githubCom ++ '/' :: x ++ '/' :: lastSegment y frag := by
-  rw [pathJoin_of_good]
-  · simp [joinWith]
-  · simp
-  · intro e he
-    simp only [List.mem_cons, List.not_mem_nil, or_false] at he
-    rcases he with rfl | rfl | rfl
-    · decide
-    · exact hx.1
-    · exact lastSegment_ne_nil _ _
-  · have e : joinWith '/' [githubCom, x, lastSegment y frag] =
-        githubCom ++ '/' :: (x ++ '/' :: lastSegment y frag) := by simp [joinWith]
-    rw [e, splitOn_append_sep _ slash_not_mem_githubCom, splitOn_append_sep _ hxs]
-    intro comp hc
-    rcases List.mem_cons.1 hc with hc | hc
-    · subst hc; decide
-    rcases List.mem_cons.1 hc with hc | hc
-    · subst hc; exact hx
-    · exact goodComps_lastSegment hy hf comp hc
 
 /-! ## `getScheme` -/
 
@@ -471,8 +386,8 @@ theorem fullSource_expand (c0 : Char) (t : Str) (hd : ∀ c ∈ c0 :: t, isDomCh
     (hseg : ':' ∉ (splitOn '/' (cutHash (c0 :: t)).1).headD []) :
     fullSource (c0 :: t) =
       match splitOn '/' (cutHash (c0 :: t)).1 with
-      | [p0] => some (pathJoin [githubCom, bkPlugins, lastSegment p0 (cutHash (c0 :: t)).2])
-      | [p0, p1] => some (pathJoin [githubCom, p0, lastSegment p1 (cutHash (c0 :: t)).2])
+      | [p0] => some (githubCom ++ '/' :: bkPlugins ++ '/' :: lastSegment p0 (cutHash (c0 :: t)).2)
+      | [p0, p1] => some (githubCom ++ '/' :: p0 ++ '/' :: lastSegment p1 (cutHash (c0 :: t)).2)
       | _ => some (c0 :: t) := by
   have hstar := dom_cut_ne_star hd
   have hctl := dom_cut_ctl hd
@@ -492,9 +407,9 @@ theorem fullSource_expand (c0 : Char) (t : Str) (hd : ∀ c ∈ c0 :: t, isDomCh
 /-- The branches, backwards: a result is the input or one of the two expansions. -/
 theorem fullSource_cases (s r : Str) (hd : ∀ c ∈ s, isDomChar c = true)
     (h : fullSource s = some r) :
-    r = s ∨ ∃ x y, '/' ∉ x ∧ '#' ∉ x ∧ (x ≠ [] ∧ x ≠ ['.'] ∧ x ≠ ['.', '.']) ∧
+    r = s ∨ ∃ x y, '/' ∉ x ∧ '#' ∉ x ∧
       (∀ c ∈ x, isDomChar c = true) ∧ '/' ∉ y ∧ '#' ∉ y ∧ (∀ c ∈ y, isDomChar c = true) ∧
-      r = pathJoin [githubCom, x, lastSegment y (cutHash s).2] := by
+      r = githubCom ++ '/' :: x ++ '/' :: lastSegment y (cutHash s).2 := by
   cases s with
   | nil => left; simpa [fullSource] using h.symm
   | cons c0 t =>
@@ -521,33 +436,20 @@ theorem fullSource_cases (s r : Str) (hd : ∀ c ∈ s, isDomChar c = true)
         '/' ∉ comp ∧ '#' ∉ comp ∧ ∀ c ∈ comp, isDomChar c = true := fun comp hc =>
       ⟨not_mem_of_mem_splitOn hc, fun hm => hu_hash (mem_of_mem_splitOn hc _ hm),
         fun c hm => hu_dom c (mem_of_mem_splitOn hc c hm)⟩
-    -- the first component starts with `c0` unless `c0 = '#'`
-    have hhead : c0 = '#' ∧ splitOn '/' (cutHash (c0 :: t)).1 = [[]] ∨
-        ∃ h' t', splitOn '/' (cutHash (c0 :: t)).1 = (c0 :: h') :: t' := by
-      by_cases hc : c0 = '#'
-      · left; subst hc; rw [cutHash_cons_hash]; exact ⟨rfl, rfl⟩
-      · right; rw [cutHash_cons_ne _ hc]; exact splitOn_head_cons _ h0.1
-    generalize hsp : splitOn '/' (cutHash (c0 :: t)).1 = comps at h hcomp hhead
-    match comps, h, hcomp, hhead with
-    | [], _, _, _ => exact absurd hsp (splitOn_ne_nil _ _)
-    | [p0], h, hcomp, _ =>
+    generalize hsp : splitOn '/' (cutHash (c0 :: t)).1 = comps at h hcomp
+    match comps, h, hcomp with
+    | [], _, _ => exact absurd hsp (splitOn_ne_nil _ _)
+    | [p0], h, hcomp =>
       right
       obtain ⟨a1, a2, a3⟩ := hcomp p0 List.mem_cons_self
-      exact ⟨bkPlugins, p0, slash_not_mem_bkPlugins, hash_not_mem_bkPlugins, by decide,
+      exact ⟨bkPlugins, p0, slash_not_mem_bkPlugins, hash_not_mem_bkPlugins,
         bkPlugins_dom, a1, a2, a3, (Option.some.inj h).symm⟩
-    | [p0, p1], h, hcomp, hhead =>
+    | [p0, p1], h, hcomp =>
       right
       obtain ⟨a1, a2, a3⟩ := hcomp p0 List.mem_cons_self
       obtain ⟨b1, b2, b3⟩ := hcomp p1 (List.mem_cons_of_mem _ List.mem_cons_self)
-      refine ⟨p0, p1, a1, a2, ?_, a3, b1, b2, b3, (Option.some.inj h).symm⟩
-      rcases hhead with ⟨_, e⟩ | ⟨h', t', e⟩
-      · simp at e
-      · simp only [List.cons.injEq] at e
-        rw [e.1]
-        refine ⟨by simp, ?_, ?_⟩
-        · intro e'; exact h0.2.1 (List.cons.inj e').1
-        · intro e'; exact h0.2.1 (List.cons.inj e').1
-    | _ :: _ :: _ :: _, h, _, _ =>
+      exact ⟨p0, p1, a1, a2, a3, b1, b2, b3, (Option.some.inj h).symm⟩
+    | _ :: _ :: _ :: _, h, _ =>
       left; exact (Option.some.inj h).symm
 
 /-- The canonical form is left as written (three or more segments, first one `github.com`-like). -/
@@ -605,12 +507,6 @@ theorem withRef_dom {u : Str} {ref : Option Str} (hu : ∀ c ∈ u, isNameChar c
     · subst hc; decide
     · exact nameOrSlash_dom (hr.2.1 c hc)
 
-theorem refOpt_good {ref : Option Str} (hr : RefOptOK ref) :
-    ref.getD [] = [] ∨ GoodComps (splitOn '/' (ref.getD [])) := by
-  cases ref with
-  | none => left; rfl
-  | some r => right; exact hr.2.2
-
 theorem lastSegment_withRef (base y : Str) {ref : Option Str} (hr : RefOptOK ref) :
     base ++ '/' :: lastSegment y (ref.getD []) = withRef (base ++ '/' :: y ++ suffix) ref := by
   cases ref with
@@ -625,8 +521,8 @@ theorem short_form (c0 : Char) (t : Str) (ref : Option Str) (hc0 : isNameChar c0
     (hdot : c0 ≠ '.') (hu : ∀ c ∈ c0 :: t, isNameChar c = true ∨ c = '/') (hr : RefOptOK ref) :
     fullSource (withRef (c0 :: t) ref) =
       match splitOn '/' (c0 :: t) with
-      | [p0] => some (pathJoin [githubCom, bkPlugins, lastSegment p0 (ref.getD [])])
-      | [p0, p1] => some (pathJoin [githubCom, p0, lastSegment p1 (ref.getD [])])
+      | [p0] => some (githubCom ++ '/' :: bkPlugins ++ '/' :: lastSegment p0 (ref.getD []))
+      | [p0, p1] => some (githubCom ++ '/' :: p0 ++ '/' :: lastSegment p1 (ref.getD []))
       | _ => some (withRef (c0 :: t) ref) := by
   have hcut : cutHash (c0 :: withRef t ref) = (c0 :: t, ref.getD []) := by
     rw [← withRef_cons]
@@ -657,8 +553,7 @@ theorem bare_name (n : Str) (hn : NameOK n) (ref : Option Str) (hr : RefOptOK re
     rw [short_form c0 t ref (hchars _ List.mem_cons_self) hdot (fun c hc => Or.inl (hchars c hc)) hr,
       splitOn_of_not_mem hs]
     simp only
-    rw [pathJoin_expand slash_not_mem_bkPlugins (by decide) hs (refOpt_good hr),
-      lastSegment_withRef _ _ hr]
+    rw [lastSegment_withRef _ _ hr]
 
 theorem org_name (o n : Str) (ho : NameOK o) (hn : NameOK n) (ref : Option Str)
     (hr : RefOptOK ref) :
@@ -682,9 +577,7 @@ theorem org_name (o n : Str) (ho : NameOK o) (hn : NameOK n) (ref : Option Str)
     rw [List.cons_append, short_form c0 (t ++ '/' :: n) ref (hchars _ List.mem_cons_self) hdot hu hr,
       ← List.cons_append, splitOn_append_sep _ hso, splitOn_of_not_mem hsn]
     simp only
-    have hgood : c0 :: t ≠ [] ∧ c0 :: t ≠ ['.'] ∧ c0 :: t ≠ ['.', '.'] :=
-      ⟨by simp, fun e => hdot (List.cons.inj e).1, fun e => hdot (List.cons.inj e).1⟩
-    rw [pathJoin_expand hso hgood hsn (refOpt_good hr), lastSegment_withRef _ _ hr]
+    rw [lastSegment_withRef _ _ hr]
 
 /-! ## Forms left as written -/
 
@@ -797,10 +690,9 @@ theorem idempotent (s r : Str)
     (hd : (∀ c ∈ s, isDomChar c = true) ∧ ((cutHash s).2 = [] ∨
       ∀ comp ∈ splitOn '/' (cutHash s).2, comp ≠ [] ∧ comp ≠ ['.'] ∧ comp ≠ ['.', '.']))
     (h : fullSource s = some r) : fullSource r = some r := by
-  rcases fullSource_cases s r hd.1 h with e | ⟨x, y, hx1, hx2, hx3, hx4, hy1, _, hy3, e⟩
+  rcases fullSource_cases s r hd.1 h with e | ⟨x, y, hx1, hx2, hx4, hy1, _, hy3, e⟩
   · rw [e]; rw [e] at h; exact h
-  · rw [pathJoin_expand hx1 hx3 hy1 hd.2] at e
-    rw [e]
+  · rw [e]
     exact three_seg_gen _ _ _ slash_not_mem_githubCom hash_not_mem_githubCom hx1 hx2
       (canon_dom hx4 hy3 fun c hc => hd.1 c (mem_of_mem_cutHash_snd s c hc))
 
@@ -810,10 +702,9 @@ theorem result_in_dom (s r : Str)
     (h : fullSource s = some r) :
     (∀ c ∈ r, isDomChar c = true) ∧ ((cutHash r).2 = [] ∨
       ∀ comp ∈ splitOn '/' (cutHash r).2, comp ≠ [] ∧ comp ≠ ['.'] ∧ comp ≠ ['.', '.']) := by
-  rcases fullSource_cases s r hd.1 h with e | ⟨x, y, hx1, hx2, hx3, hx4, hy1, hy2, hy3, e⟩
+  rcases fullSource_cases s r hd.1 h with e | ⟨x, y, _, hx2, hx4, _, hy2, hy3, e⟩
   · rw [e]; exact hd
-  · rw [pathJoin_expand hx1 hx3 hy1 hd.2] at e
-    subst e
+  · subst e
     refine ⟨canon_dom hx4 hy3 fun c hc => hd.1 c (mem_of_mem_cutHash_snd s c hc), ?_⟩
     have hn : '#' ∉ githubCom ++ '/' :: x ++ '/' :: (y ++ suffix) := by
       simp only [List.mem_append, List.mem_cons, not_or]
